@@ -233,6 +233,14 @@ theorem C09_resolve_pointwise (pk markers : List α) (is : List Nat) (h : resolv
       markers[i]? = some n ∧ ∀ j : Nat, j < i → markers[j]? ≠ some n :=
   ⟨resolve_length markers pk is h, resolves_get markers pk is ((resolve_iff markers pk is).mp h)⟩
 
+/-- **THE marker.** When no two markers bind the same column (distinct marker names), any index list that names the
+    key columns exactly (byte-equal, in key order) IS what `resolve` answers: the marker of a key column is unique. -/
+theorem C09_resolve_the_marker (pk markers : List α) (is : List Nat) (hnd : markers.Nodup)
+    (hlen : is.length = pk.length)
+    (h : ∀ (k : Nat) (n : α) (i : Nat), pk[k]? = some n → is[k]? = some i → markers[i]? = some n) :
+    resolve pk markers = some is :=
+  (resolve_iff markers pk is).mpr (resolves_of_exact markers hnd pk is hlen h)
+
 /-- no resolution iff some key column is not bound by any marker (byte-equal name) -/
 theorem C09_resolve_unbound (pk markers : List α) :
     resolve pk markers = none ↔ ∃ n ∈ pk, n ∉ markers := resolve_none_iff markers pk
@@ -370,6 +378,14 @@ example : resolve ["k1", "k"] ["k10", "k", "k1", "k"] = some [2, 1] := by decide
 example : getRoutingKey toyEnc ⟨[⟨"id", 4⟩, ⟨"ID", 4⟩], [], "ks", "t"⟩
     [("KS", [("t", [("id", 0)])]), ("ks", [("T", [("id", 0)]), ("t", [("ID", 0)])])] [[7], [42]]
     = .res (.key (some [0, 0, 0, 42])) := by decide
+
+/-- the specification tells the spellings apart: marker 0 (`id`) does not carry the key column `ID`; a resolver that
+    compares names case-insensitively (seeded change C09-7) answers `[0]` here -/
+example : ¬ Spec.Resolves ["id", "ID"] ["ID"] [0] := by simp [Spec.Resolves]
+example : Spec.Resolves ["id", "ID"] ["ID"] [1] := by
+  refine ⟨⟨rfl, ?_⟩, trivial⟩
+  intro j hj; have : j = 0 := by omega
+  subst this; simp
 
 end NameResolution
 
